@@ -966,6 +966,9 @@ func _expandFont(_ string, _ pr.Shortand, tokens []Token) ([]namedTokens, error)
 	// can come in any order and are all optional.
 	hasBroken := false
 	for i := 0; i < 4; i++ {
+		if len(tokens) == 0 { // only optional values: font-size is missing
+			return nil, ErrInvalidValue
+		}
 		token, tokens = tokens[len(tokens)-1], tokens[:len(tokens)-1]
 
 		kw := getKeyword(token)
